@@ -117,3 +117,14 @@ type Sink struct{}
 
 //go:norace
 func (Sink) Write(b []byte) (int, error) { return len(b), nil }
+
+// PeekCode reads the status the spy holds, from any task, without the race
+// detector treating the simulator's own bookkeeping as shared framework state.
+//
+//go:norace
+func (s *Spy) PeekCode() int { return s.Code }
+
+// PeekBody returns the number of body bytes the spy has accepted.
+//
+//go:norace
+func (s *Spy) PeekBody() int { return len(s.Body) }
